@@ -171,6 +171,10 @@ class Lock:
 # ----------------------------------------------------------------------------- C++ builds
 CXX_BASE = ['-std=c++17', '-O1', '-g0', '-ffp-contract=off', '-fno-strict-aliasing', '-w',
             '-D' + GUARD, '-I' + INC, '-I' + SRC, '-I' + os.path.join(VERIF, 'harness')]
+if os.environ.get('VERIF_COVERAGE'):
+    # tools/coverage.py: every harness is built with gcov instrumentation (separate cache entries: the flags are part of the key);
+    # the .gcda files land next to the cached binaries and are summed per library source line
+    CXX_BASE = CXX_BASE + ['--coverage']
 VARIANTS = {
     'plain': [],
     'z': ['-DUSINGZ'],
